@@ -231,10 +231,10 @@ def pool(env, full):
     sym("pA", AII)
     sym("pf", FII)
     # a user-declared sort that merely shares its name with a built-in one is a different sort
-    sym("pi", ("Sort", "Int", ()))
+    sym("puI", ("Sort", "Int", ()))
     if full:
-        sym("pb", ("Sort", "Bool", ()))
-        sym("pq", ("Sort", "Real", ()))
+        sym("puB", ("Sort", "Bool", ()))
+        sym("puR", ("Sort", "Real", ()))
         out.append((INT, m.Int(0)))
         out.append((REAL, m.Real(0)))
         sym("pu3", ("BV", 3))
